@@ -80,6 +80,7 @@ TITLE_SHAPES = [
     ("collides-with-autotitle", ("Root", "p", "q")),
     ("all-same", ("Same", "Same", "Same")),
     ("reserved-duplicates", ("Object", "List", "List")),
+    ("suffix-duplicates", ("Dup_1", "Dup_1", "Dup")),
 ]
 
 
